@@ -210,8 +210,9 @@ def writeThenParse (ls : List Line) : Res MediaPlaylist :=
   | .err => .err
   | .panic => .panic
 
-theorem k3_counterexample : (assembleMedia {} k3Lines).isOk = true ∧ (writeThenParse k3Lines).isOk = true ∧
-    writeThenParse k3Lines ≠ assembleMedia {} k3Lines := by decide
+/-- the former finding K3 (the writer re-announced nothing after the reset): since the `fix:` that
+makes the writer print the reset, this history round-trips -/
+theorem k3_repaired : (assembleMedia {} k3Lines).isOk = true ∧ writeThenParse k3Lines = assembleMedia {} k3Lines := by decide
 
 theorem k2_counterexample : (assembleMedia {} k2Lines).isOk = true ∧ (writeThenParse k2Lines).isOk = true ∧
     writeThenParse k2Lines ≠ assembleMedia {} k2Lines := by decide
